@@ -13,7 +13,27 @@ def showR (r : Except Wire.ErrKind (List Nat)) : String :=
 
 def tols : List (String × Rat) := [("0", 0), ("1/2", 1/2), ("3/2", 3/2), ("1", 1), ("2", 2)]
 
+/-- file mode: each line `Z <T|F> <tol> <v…>` or `S <tol> <v…>` (rationals as `n/d`); echo the line + result -/
+def runFile (path : String) : IO Unit := do
+  let out ← IO.getStdout
+  let lines ← IO.FS.lines path
+  for ln in lines do
+    let toks := (ln.splitOn " ").filter (· ≠ "")
+    match toks with
+    | "Z" :: ka :: t :: vs =>
+      match Wire.parseRat t, Wire.rats vs with
+      | .ok t, .ok v => out.putStrLn s!"{ln} => {showR (zeroCrossingsE v (ka == "T") t)}"
+      | _, _ => out.putStrLn s!"{ln} => bad"
+    | "S" :: t :: vs =>
+      match Wire.parseRat t, Wire.rats vs with
+      | .ok t, .ok v => out.putStrLn s!"{ln} => {showR (switchedPeaksE v t)}"
+      | _, _ => out.putStrLn s!"{ln} => bad"
+    | _ => pure ()
+
 def main (args : List String) : IO Unit := do
+  if args.head? == some "file" then
+    runFile (args.getD 1 "")
+    return
   let maxLen := (args.head? >>= String.toNat?).getD 6
   let out ← IO.getStdout
   for n in List.range (maxLen + 1) do
